@@ -23,7 +23,7 @@ RULE = {
  'C01': ('from_polygon on simple polygons (convex, star, rectilinear, L/U, quads, grid outlines with several aligned non-adjacent corners; 3..40 vertices, redundant collinear points, either winding, '
          'any start vertex; 0..3 convex holes of 3..8 vertices in either winding and any start vertex; coordinate, oblique and rotated planes, '
          'offsets to 1e3) and mesh_polygon with max_area = area/k (k log-uniform) and max_aspect_ratio in [0.8,10]; polygon rebuilt by the model '
-         'from the pushed points; outcome class and the complete piece list compared bit for bit; non-trivial = polygon built and >= 2 triangles; '
+         'from the pushed points; outcome class, the complete piece list and the list returned by get_trilist() compared bit for bit; non-trivial = polygon built and >= 2 triangles; '
          'distinct = distinct (outline, holes, parameters)'),
  'C08': ('initial meshes of a triangle, square, quad, L-shape, hexagon, square with a 3- or 4-vertex hole in any plane; every path of depth <= 2..3 '
          'over the menu {split_edge at 2-3 points of each edge of each triangle, split_triangle at 2-3 points of each triangle, flip_diagonal of each '
@@ -44,10 +44,11 @@ ASSUMPTIONS = {
  'C01': _COMMON + ['the geometric half (signed areas, winding numbers) is NOT proved here: it is checked per run by the exact-rational oracle on the '
                    'implementation outputs (area sum, orientation, coverage of sampled points); only the structural facts are theorems'],
  'C08': _COMMON + ['Conf_struct (neighbour symmetry, validity, counter) is proved preserved only for the operations listed in Properties/C08_mesh.v; the '
-                   'geometric clauses (same region, same outline, orientation) are checked per step by the exact-rational oracle; Properties/C08_region.v proves '
-                   'them on the real-number instance for split_triangle (unconditionally), and for flip_diagonal / split_edge / restore_delaunay / add_point / '
-                   'histories under the hypotheses that the neighbour holds the shared edge exactly (flip_shared; not proved to be an invariant) and that '
-                   'a split_edge point lies exactly on the edge (the crate locates points with a 100-eps tolerance); refine is not covered'],
+                   'geometric clauses (same region, same outline, orientation) are checked per step by the exact-rational oracle; Properties/C08_region.v and C08_links.v prove '
+                   'them on the real-number instance: split_triangle unconditionally; flip_diagonal / split_edge / restore_delaunay / add_point and histories of '
+                   'these from any mesh whose links are geometrically exact (LNKG: an invariant of the steps under the separation hypothesis SEP, proved for every '
+                   'number instance; NOT proved of from_polygon\'s result), each inserted point separated from the current vertices and, for an edge split, '
+                   'exactly on the edge (the crate locates points with a 100-eps tolerance); refine is not covered; nothing geometric is proved of the float instance'],
  'C09': _COMMON + ['wall-clock time and stack depth are observed by the harness, not modelled; success for well-conditioned polygons is validated on the '
                    'generated stream, not proved (needs the two-ears theorem)'],
  'C18': _COMMON + ['the theorem is about the cached aspect_ratio and the cached Heron area of each slot; that these agree with circumradius / shortest edge '
@@ -74,16 +75,23 @@ THEOREMS = {
          'C08_push_after_check_succeeds', 'C08_split_triangle_atomic', 'C08_split_triangle_err_unchanged',
          'C08_flip_atomic', 'C08_flip_err_unchanged', 'C08_split_edge_atomic',
          'C08_split_edge_err_unchanged', 'C08_split_triangle_struct', 'C08_split_edge_struct',
-         'C08_flip_struct_partial', 'C08_restore_delaunay_sound', 'C08_add_point_err_unchanged',
+         'C08_restore_delaunay_sound', 'C08_add_point_err_unchanged',
          'C08_live_mark_as_neighbours', 'C08_live_constrain', 'C08_live_set_neighbour',
          'C08_live_invalidate', 'C08_live_push', 'C08_live_split_triangle',
          'C08_live_flip_diagonal', 'C08_live_split_edge', 'C08_cover_counts_inside',
          'C08_region_split_triangle', 'C08_region_flip_diagonal', 'C08_region_split_edge_area',
          'C08_region_split_edge_cover', 'C08_split_edge_hypothesis_of_nondeg', 'C08_nondeg_split_triangle',
          'C08_nondeg_flip_diagonal', 'C08_region_add_point_area', 'C08_region_add_point_cover',
-         'C08_region_restore_delaunay_partial', 'C08_region_history_area_partial', 'C08_region_history_cover_partial',
          'C08_orientation_split_triangle', 'C08_orientation_split_edge', 'C08_orientation_flip_diagonal',
-         'C08_is_convex_gives_flip_convex', 'C08_located_on_edge_is_not_exact'],
+         'C08_is_convex_gives_flip_convex', 'C08_located_on_edge_is_not_exact',
+         # Properties/C08_links.v: the link geometry as an invariant; region theorems without an invariant hypothesis
+         'C08_links_flip_diagonal', 'C08_links_split_triangle', 'C08_links_split_edge',
+         'C08_links_give_live_links', 'C08_geo_flip_diagonal', 'C08_geo_split_triangle',
+         'C08_geo_split_edge', 'C08_geo_restore_delaunay', 'C08_geo_add_point',
+         'C08_flip_struct', 'C08_geo_gives_flip_shared', 'C08_geo_gives_split_edge_hypothesis',
+         'C08_region_flip_diagonal_geo', 'C08_region_restore_delaunay', 'C08_region_split_edge_geo_area',
+         'C08_region_split_edge_geo_cover', 'C08_region_history_area', 'C08_region_history_cover',
+         'C08_orientation_restore_delaunay', 'C08_orientation_history'],
  'C09': ['C09_from_polygon_bounded', 'C09_restore_delaunay_bounded', 'C09_edge_add_no_panic', 'C09_panic_sites_flip_diagonal',
          'C09_panic_sites_split_edge', 'C09_panic_sites_split_triangle', 'C09_panic_sites_restore_delaunay', 'C09_panic_sites_add_point',
          'C09_panic_sites_refine', 'C09_wf_push', 'C09_wf_invalidate', 'C09_wf_mark_as_neighbours', 'C09_wf_flip_diagonal',
@@ -102,7 +110,7 @@ THEOREMS = {
 def streams(prop, tier):
     q = tier == 'quick'
     if prop == 'C01':
-        if q: return [Stream('C01mesh', 120), Stream('C01refine', 40, extra=['120', '40', '2.0'])]
+        if q: return [Stream('C01mesh', 156), Stream('C01refine', 40, extra=['120', '40', '2.0'])]
         if tier == 'search': return [Stream('C01mesh', 300), Stream('C01refine', 120, extra=['0', '2000', '3.0'])]
         return [Stream('C01mesh', 1200), Stream('C01mesh', 400, release=True), Stream('C01refine', 160, extra=['500', '300', '3.0']),
                 Stream('C01refine', 120, release=True, extra=['0', '2000', '6.0'])]
@@ -111,7 +119,7 @@ def streams(prop, tier):
         if tier == 'search': return [Stream('C08hist', 1500, extra=['2']), Stream('C08rand', 100, extra=['150'])]
         return [Stream('C08hist', 4000, extra=['3']), Stream('C08rand', 120, extra=['300']), Stream('C08rand', 60, release=True, extra=['300'])]
     if prop == 'C09':
-        if q: return [Stream('C09mesh', 96), Stream('C09mesh', 64, release=True), Stream('C09refine', 40, extra=['120', '40', '2.0']), Stream('C09refine', 24, release=True, extra=['120', '40', '2.0'])]
+        if q: return [Stream('C09mesh', 132), Stream('C09mesh', 64, release=True), Stream('C09refine', 40, extra=['120', '40', '2.0']), Stream('C09refine', 24, release=True, extra=['120', '40', '2.0'])]
         if tier == 'search': return [Stream('C09mesh', 400), Stream('C09refine', 150, extra=['0', '2000', '3.0'])]
         return [Stream('C09mesh', 1200), Stream('C09mesh', 600, release=True), Stream('C09refine', 160, extra=['500', '300', '3.0']),
                 Stream('C09refine', 160, release=True, extra=['0', '2000', '6.0'])]
@@ -539,6 +547,8 @@ def describe(prop, c, st):
         d['steps'] = [[OPNAME[s['k']], s['i'], s['e'], s['lab'], s['o']] for s in c['steps']][:12]
     else:
         d['ms'] = c.get('ms'); d['msg'] = c.get('msg'); d['triangles'] = c.get('npieces', len(c.get('pieces', [])))
+        # the list handed to the user by get_trilist (compared with the model's get_trilist by Run/Mesh.v, tags 2 / 3 / 11)
+        d['get_trilist'] = len(c.get('trilist', [])) // 9
         if c['kind'] == 'rf': d['max_area'] = fl(c['max_area']); d['max_aspect_ratio'] = fl(c['max_ar'])
     return d
 
